@@ -134,7 +134,11 @@ def slice_api(F, S):
             probs.append("expected one Slice(start,len) call and one SeekForward call")
         else:
             a = [fn1.term(x) for x in sl[0]["args"]]
-            if not (len(a) == 2 and a[0][0] == "call" and a[0][1].endswith("::Position") and a[0][2] == ("this",) and a[1] == lenv):
+            from ..facts import GETTERS
+            pos_getter = [m for k, m in GETTERS.items() if k.startswith(q + "::Position(")]
+            pos_ok = len(a) == 2 and ((a[0][0] == "call" and a[0][1].endswith("::Position") and a[0][2] == ("this",)) or
+                                      (pos_getter and a[0] == ("mem", ("this",), pos_getter[0])))
+            if not (pos_ok and a[1] == lenv):
                 probs.append("slice is not Slice(Position(), length)")
             if fn1.term(sk[0]["args"][0]) != lenv:
                 probs.append("parent advances by %s, not by the slice length" % fmt_term(fn1.term(sk[0]["args"][0])))
